@@ -43,6 +43,9 @@ def run(ctx):
     ctx.attempt(free_energy_rule, ctx)
     ctx.attempt(plane_stress_flow_rule, ctx)
     ctx.attempt(plane_stress_kinematic_rule, ctx)
+    from . import e2e_rules as _e2e
+
+    ctx.attempt(_e2e.inelastic_rule, ctx, "R19.E1")
     ctx.attempt(reducibility_rule, ctx)
     from ..shared import commit_idempotent_rule as _commit_idempotent_rule
 
